@@ -317,7 +317,7 @@ def cacheseq(prop, tier, seed):
                         "history operation), every population exhaustively and seeded histories of 8 operations, replayed by a process running as uid 65534")
     if prop == "C16":
         # the naming half: generated transient names and the write/refresh/remove cycle under them
-        nm = generic_replay(prop, tier, seed, [("SpecName", "SpecName_quick.cfg" if tier == "quick" else "SpecName_thorough.cfg", {})],
+        nm = generic_replay(prop, tier, seed, [("SpecName", "SpecName_quick.cfg", {})] + ([("SpecName", "SpecName_thorough.cfg", {})] if tier == "thorough" else []),
                             "oracle-specname", "model_checking", "", [])
         for m in nm["mismatches"]:
             m["replay_sub"] = "oracle-specname"
@@ -326,7 +326,7 @@ def cacheseq(prop, tier, seed):
         for k in ("states", "transitions", "traces_validated_against_impl", "evaluations", "distinct_nontrivial", "steps_replayed"):
             cov[k] += nc[k]
         cov["specname_rows"] = nc["evaluations"]
-        cov["rule"] += "; plus every transient id of <=3/<=5 tokens ('/', '.', '..', '.json', '.yaml', blank, non-ASCII) x 4 kinds (dotted class, class ending in .json/.yaml): generated name, single-component check, WriteSpec tree diff, encoding, precedence after Refresh, RemoveSpec twice"
+        cov["rule"] += "; plus every transient id of <=3/<=5 tokens ('/', '.', '..', '.json', '.yaml', blank, non-ASCII, a filler that brings the file name to NAME_MAX = 255 bytes) x 4 kinds (dotted class, class ending in .json/.yaml): generated name, single-component check, WriteSpec tree diff, encoding, precedence after Refresh, RemoveSpec twice"
         cov["checker_cmd"] += " ; " + nc["checker_cmd"]
     return {"level": "model_checking", "coverage": cov, "mismatches": mine, "replay_with": "replay-cache",
             "n_violations_total": None,
@@ -345,6 +345,13 @@ def selftest():
         r = run_tlc("MCCacheSeq", "selftest.cfg", deadlock=True, timeout=600, keep={"selftest.cfg": cfg})
         good = inv in r.violated
         print("selftest model %s=TRUE -> %s violated: %s" % (flag, inv, good))
+        ok &= good
+    # 1b. protocols that break atomic publication must violate the invariants of SpecWrite
+    for flag in ("BUG_INPLACE", "BUG_TMPEXT", "BUG_FIXEDTMP"):
+        cfg = open(os.path.join(vlib.SPEC, "SpecWrite.cfg")).read().replace("%s = FALSE" % flag, "%s = TRUE" % flag)
+        r = run_tlc("SpecWrite", "selftest.cfg", deadlock=True, timeout=600, keep={"selftest.cfg": cfg})
+        good = bool(r.violated)
+        print("selftest model SpecWrite %s=TRUE -> %s violated: %s" % (flag, ",".join(r.violated) or "nothing", good))
         ok &= good
     # 2. corrupt one expected field of one row: the replay must report it
     g = run_tlc("MCCacheSeq", "CacheSeq_q0.cfg", deadlock=True, timeout=600)
